@@ -67,6 +67,99 @@ CONCRETE["ok"].append({"entry": "none", "queries": [q for q in _zoo.QUERIES if q
 BIG = {"big31": 2 ** 31 - 20, "big32": 2 ** 32 - 20, "big31b": 2 ** 31 - 3, "big32b": 2 ** 32 - 3}
 
 
+# ---------------------------------------------------------------- the query builder as an object (QBuilder.tla)
+QB_XTA = "clock x; int i; process P(){ state L0, L1; init L0; trans L0 -> L1 { guard x>1; }; } system P;"
+QB_TEXT = {"plain": ["A[] i<4", "E<> P.L1", "simulate[<=10; 3]{i, x}", "Pr[<=10](<> P.L1)"],
+           "declS": ["strategy S = control: A[] not P.L1", "strategy S = control: A<> P.L1"],
+           "declF": ["strategy F = minE(x)[<=10] : <> P.L1", "strategy F = maxE(i)[<=20] : <> P.L1"],
+           "declSerr": ["strategy S = control: A[] nosuch", "strategy S = control: A<> (deadlock and P.L1)"],
+           "declFunderS": ["strategy F = minE(x)[<=10] : <> P.L1 under S"],
+           "underS": ["E<> P.L1 under S", "Pr[<=10](<> P.L1) under S", "E[<=10; 5](max: i) under S"],
+           "underF": ["Pr[<=10](<> P.L1) under F", "simulate[<=10; 3]{i, x} under F"],
+           "cmpSF": ["Pr[<=10](<> P.L1) under S >= Pr[<=10](<> P.L1) under F"],
+           "imitSF": ["maxE(i)[<=10] : <> P.L1 under S imitate F", "maxPr[<=10] : <> P.L1 under S imitate F"],
+           "imitF": ["minE(x)[<=10] : <> P.L1 imitate F"],
+           "synerrS": ["minE(x)[<=10] : <> P.L1 under S imitate 3", "Pr[<=10](<> P.L1) under S >= 0.5"],
+           "typerrS": ["E<> nosuch under S", "Pr[<=10](<> P.L1 + 1 < x.y) under S"],
+           "typerrSF": ["maxE(nosuch)[<=10] : <> P.L1 under S imitate F"],
+           "throwS": ["A<> (deadlock and P.L1) under S"],
+           "clear": [{"clear": True}]}
+QB_DECL = ("declS", "declF", "declFunderS", "declSerr")
+
+
+def qb_obs(q):
+    """what a query call hands to the client"""
+    if q.get("cleared"):
+        return {"cleared": True}
+    return {"outcome": q.get("outcome"), "ret": q.get("ret"), "exc": q.get("exc"),
+            "errors": sorted(e["msg"] for e in q.get("errors", [])),
+            "props": [{k: p.get(k) for k in ("type", "s", "declaration", "subjections", "imitation")} for p in q.get("props", [])]}
+
+
+def qbuilder_part(c, quick, rnd):
+    """histories of queries on ONE builder: every history of QBuilder.tla, replayed on a TigaPropertyBuilder; the last query's result must be the one it
+    gives on a builder that has seen only the strategy declarations in force"""
+    cfg = os.path.join(c.run_dir, "QBuilder.cfg")
+    open(cfg, "w").write("CONSTANTS\n  MaxQueries = %d\n  ResetImit = TRUE\n  ResetOnFail = TRUE\n  ClearDecls = TRUE\n  DeclNeedsProperty = TRUE\nINIT Init\nNEXT Next\nVIEW View\n"
+                         "INVARIANTS IndependentOfOtherQueries NoDangling DeclsAreDeclarations EmitHist\nCHECK_DEADLOCK FALSE\n" % (3 if quick else 4))
+    mc = vf.run_tlc("QBuilder", cfg, c.run_dir, timeout=1500, keep_out=False)
+    c.add_tlc("QBuilder", mc, "all histories of queries on one builder object; IndependentOfOtherQueries and NoDangling on every state")
+    hists = [e for e in mc.emitted if e["h"]]
+    seen, uniq = set(), []
+    for e in hists:
+        if tuple(e["h"]) not in seen:
+            seen.add(tuple(e["h"]))
+            uniq.append(e)
+    jobs, plan = [], []
+    base = {"entry": "xta", "text": QB_XTA, "query_builder": "tiga", "one_builder": True, "clear_errors": True, "timeout": 60}
+    for n, e in enumerate(uniq):
+        h = e["h"]
+        for rep in range(1 if quick else 2):
+            qs = [rnd.choice(QB_TEXT[k]) for k in h]
+            start = max([i + 1 for i, k in enumerate(h[:-1]) if k == "clear"] or [0])
+            ref = [q for k, q in list(zip(h, qs))[start:-1] if k in QB_DECL] + [qs[-1]]
+            jobs.append(dict(base, id="q%d_%d" % (n, rep), queries=qs))
+            jobs.append(dict(base, id="q%d_%d_ref" % (n, rep), queries=ref))
+            plan.append(("q%d_%d" % (n, rep), e, qs, ref))
+    res = vf.run_jobs(jobs, c.run_dir, variant="asan", harness="model_run", name="qbuilder")
+    drift = 0
+    for jid, e, qs, ref in plan:
+        h = e["h"]
+        r, rr = res[jid], res[jid + "_ref"]
+        if "queries" not in rr:
+            c.finding("c15:builder:%s-after-declarations:crash" % h[-1],
+                      "the queries %s handed to one TigaPropertyBuilder end the process (%s)" % (json.dumps(ref), rr.get("outcome")),
+                      {"builder_history": [k for k in h[:-1] if k in QB_DECL] + [h[-1]], "queries": ref, "reference": ref, "stderr": (rr.get("stderr") or "")[-1500:]})
+            continue
+        if "queries" not in r:
+            c.finding("c15:builder:%s-after-%s:crash" % (h[-1], "+".join(sorted(set(h[:-1]))) or "-"),
+                      "the queries %s handed to one TigaPropertyBuilder end the process (%s); the last one alone, after the declarations in force, gives %s" % (
+                          json.dumps(qs), r.get("outcome"), json.dumps(qb_obs(rr["queries"][-1]))[:200]),
+                      {"builder_history": h, "queries": qs, "reference": ref, "stderr": (r.get("stderr") or "")[-1500:]})
+            continue
+        a, b = qb_obs(rr["queries"][-1]), qb_obs(r["queries"][-1])
+        if a != b:
+            d = docgen.diff(a, b)
+            c.finding("c15:builder:%s-after-%s:%s" % (h[-1], "+".join(sorted(set(h[:-1]))) or "-", docgen.diff_class(d[0])),
+                      "query %s, parsed with a TigaPropertyBuilder that has parsed %s before, gives a different result than after only the strategy declarations in force (%s) at %s: there %s, here %s" % (
+                          json.dumps(qs[-1]), json.dumps(qs[:-1]), json.dumps(ref[:-1]), d[0][0], json.dumps(d[0][1])[:160], json.dumps(d[0][2])[:160]),
+                      {"builder_history": h, "queries": qs, "reference": ref, "differences": d})
+        # the model's prediction of the result (DRIFT only)
+        if h[-1] != "clear":
+            props = b["props"]
+            got = {"has": bool(props), "subj": [s.split(" = ")[0] for s in props[-1]["subjections"]] if props else [],
+                   "imit": (props[-1]["imitation"] or "-").split(" = ")[0] if props else "-", "nerr": len(b["errors"]) > 0}
+            want = {"has": e["res"]["has"], "subj": list(e["res"]["subj"]), "imit": e["res"]["imit"], "nerr": len(e["res"]["errs"]) > 0}
+            if got != want and a == b:
+                drift += 1
+                if drift <= 3:
+                    print("DRIFT QBuilder.tla predicts %s for the last query of %s, the builder gives %s" % (json.dumps(want), json.dumps(qs), json.dumps(got)))
+    c.cov["builder_histories"] = len(uniq)
+    c.cov["builder_history_calls"] = len(jobs)
+    c.cov["builder_model_disagreements"] = drift
+    return len(plan)
+
+
 def record(r):
     """observable result of one call, positions as (path, line, column) only"""
     if r.get("outcome") in ("signal", "timeout", "abnormal-exit", "harness-error"):
@@ -146,8 +239,9 @@ def run(tier):
                 c.finding(key, "call %d (%s) of the history %s gives a different result than in a fresh process at %s: fresh %s, here %s" % (
                     k, j["abstract"][k], j["abstract"], d[0][0], json.dumps(d[0][1])[:160], json.dumps(d[0][2])[:160]),
                     {"abstract": j["abstract"], "calls": j["calls"], "call_index": k, "differences": d})
-    c.cov["traces_validated_against_impl"] = len(jobs)
-    c.cov["evaluations"] = ncalls
+    nb = qbuilder_part(c, quick, rnd)
+    c.cov["traces_validated_against_impl"] = len(jobs) + nb
+    c.cov["evaluations"] = ncalls + nb
     c.cov["distinct_nontrivial"] = len(jobs)
     c.cov["rule"] = "histories = every history of Tracker.tla up to the bound (each instantiated with concrete calls) + random mixes with the position counter placed near 2^31/2^32; non-trivial = every history (>= 1 call with a fresh-process reference)"
     c.sample({"abstract": jobs[len(jobs) // 2]["abstract"], "calls": [{k: (v if k != "text" else v[:80]) for k, v in cl.items()} for cl in jobs[len(jobs) // 2]["calls"]]})
